@@ -46,7 +46,7 @@ def lenclass(n):
     return 'empty' if n == 0 else 'len1' if n == 1 else 'len2' if n == 2 else 'len>2'
 
 
-def coef_sets(L, seed, salt, ints=True):
+def coef_sets(L, seed, salt, ints=True, dense_first=False):
     """(label, list) coefficient vectors: every unit vector (float, and int-valued), one seeded dense."""
     out = []
     for k in range(L):
@@ -59,8 +59,83 @@ def coef_sets(L, seed, salt, ints=True):
             e[k] = 1
             out.append((f'iunit{k}', e))
     d = dense((L,), seed, salt, complex_=False)
-    out.append(('dense', [float(v) for v in d]))
-    return out
+    d = ('dense', [float(v) for v in d])
+    return [d] + out if dense_first else out + [d]
+
+
+# coefficient containers: how a caller may hold one coefficient vector
+CONTAINERS = ['list', 'f64', 'row2d', 'f32', 'int']
+
+
+def container(c, kind):
+    """The coefficient vector c (list of Python numbers) held in the given kind of container."""
+    if kind == 'list':
+        return list(c)
+    if kind == 'f64':
+        return np.array(c, dtype=np.float64)
+    if kind == 'f32':
+        return np.array(c, dtype=np.float32)
+    if kind == 'int':
+        return np.array(c, dtype=np.int64)
+    A = np.full((3, len(c)), 0.125)      # row2d: a row (view) of a caller-owned 2-D table of coefficients
+    A[1] = c
+    return A[1]
+
+
+def sets_for(kind, L, seed, salt):
+    """Coefficient sets appropriate to a container kind: int containers hold the int-valued unit vectors only."""
+    if kind == 'int':
+        return [(n, c) for n, c in coef_sets(L, seed, salt, ints=True) if n.startswith('iunit')]
+    return coef_sets(L, seed, salt, ints=(kind == 'list'), dense_first=True)
+
+
+def values_of(cont):
+    """Exact Python-float values held by a (possibly float32) container."""
+    return [float(v) for v in cont]
+
+
+def eps_of(kind):
+    return float(np.finfo(np.float32).eps) if kind == 'f32' else EPS
+
+
+def freeze(x):
+    """Hashable deep snapshot of nested lists / arrays of coefficients (type, dtype, shape and bytes)."""
+    if isinstance(x, np.ndarray):
+        return ('nd', str(x.dtype), x.shape, np.ascontiguousarray(x).tobytes())
+    if isinstance(x, (list, tuple)):
+        return (type(x).__name__, tuple(freeze(v) for v in x))
+    return ('v', type(x).__name__, repr(x))
+
+
+def twice(R, f, args, pick, ref, tol, sig, fn, kind, what, held):
+    """Evaluate f(*args) twice with the SAME argument objects: both results must equal the reference and the
+    coefficient containers ``held`` must be left exactly as they were."""
+    before = freeze(held)
+    ok = True
+    for nth in ('first', 'second'):
+        out = R.call(f, *args, sig=sig + ':exception')
+        s = sig if nth == 'first' else f'{fn}:second-use:{kind}'
+        ok = R.expect_close(pick(out, s), ref, tol, s, what + (' [second evaluation with the same coefficient objects]' if nth == 'second' else '')) and ok
+    R.expect(freeze(held) == before, f'{fn}:coefs-mutated:{kind}', what + ': the caller\'s coefficient container was modified')
+    return ok
+
+
+def layout(a, kind):
+    """Same values, different memory layout: C, Fortran copy, transposed view of the transposed data, strided slice."""
+    a = np.asarray(a)
+    if kind == 'C':
+        return np.ascontiguousarray(a)
+    if kind == 'F':
+        return np.asfortranarray(a)
+    if kind == 'tview':
+        return np.ascontiguousarray(np.swapaxes(a, -1, -2)).swapaxes(-1, -2)
+    big = np.full((*a.shape[:-2], 2 * a.shape[-2] + 1, 2 * a.shape[-1] + 1), 7.5, dtype=a.dtype)
+    view = big[..., 1::2, 0:-1:2]
+    view[...] = a
+    return view
+
+
+LAYOUTS = ['C', 'F', 'tview', 'slice']
 
 
 def explicit_sum(coefs, modes):
@@ -113,43 +188,47 @@ XFORMS = ['pyfloat', 'np0d', '1d', '2d']
 # sum_of_2d_modes
 
 def run_sum_modes(case, seed, R):
-    K, (ny, nx), form, dt = case['K'], case['shape'], case['modes_as'], case['dtype']
+    K, (ny, nx), form, dt, lay = case['K'], case['shape'], case['modes_as'], case['dtype'], case['layout']
     dtype = np.dtype(dt)
     eps = float(np.finfo(dtype).eps)
     k, i, j = np.meshgrid(np.arange(K), np.arange(ny), np.arange(nx), indexing='ij')
     labelled = ((k + 1) * 100 + 10 * i + j).astype(dtype)
     generic = dense((K, ny, nx), seed, 1, complex_=False).astype(dtype)
     sq = 'square' if ny == nx else 'nonsquare'
-    sig = f'sum_of_2d_modes:{sq}:{form}:{dt}'
-    for mname, modes in (('labelled', labelled), ('generic', generic)):
-        arg = modes if form == 'ndarray' else [m for m in modes]
-        for cname, c in coef_sets(K, seed, 2):
-            for wform in ('list', 'ndarray'):
-                w = c if wform == 'list' else np.asarray(c)
-                got = R.call(P.sum_of_2d_modes, arg, w)
-                ref, cond = explicit_sum(c, modes.astype(float))
-                R.expect_close(got, ref, 64 * eps * cond, sig, f'{mname} modes K={K} {ny}x{nx}, weights {cname} as {wform}')
+    sig = f'sum_of_2d_modes:{sq}:{form}:{dt}:{lay}'
+    pick = lambda out, s: out   # noqa
+    for mname, modes in (('generic', generic), ('labelled', labelled)):
+        arg = layout(modes, lay) if form == 'ndarray' else [layout(m, lay) for m in modes]
+        for kind in (CONTAINERS if mname == 'generic' else CONTAINERS[:2]):
+            for cname, c in sets_for(kind, K, seed, 2):
+                w = container(c, kind)
+                ref, cond = explicit_sum(values_of(w), modes.astype(float))
+                tol = 64 * max(eps, eps_of(kind)) * cond
+                twice(R, P.sum_of_2d_modes, (arg, w), pick, ref, tol, sig, 'sum_of_2d_modes', kind,
+                      f'{mname} modes K={K} {ny}x{nx} layout {lay}, weights {cname} as {kind}', (arg, w))
     R.nontrivial()
-    R.outcome(sq)
+    R.outcome(f'{sq}:{lay}')
 
 
 # ---------------------------------------------------------------------------------------------
 # Jacobi Clenshaw
 
 def run_jacobi(case, seed, R):
-    L, (a, b), form, cform = case['L'], case['ab'], case['x'], case['coefs_as']
+    L, (a, b), form, kind = case['L'], case['ab'], case['x'], case['coefs_as']
     x = x_jacobi(form)
     modes = [P.jacobi(n, a, b, x) for n in range(L)]
-    sig = f'jacobi_sum_clenshaw:{lenclass(L)}'
-    for cname, c in coef_sets(L, seed, 3, ints=(cform == 'list')):
-        s = c if cform == 'list' else np.asarray(c)
-        ref, cond = explicit_sum(c, modes)
-        got = R.call(P.jacobi_sum_clenshaw, s, a, b, x, sig=sig + ':exception')
-        R.expect_close(got, ref, KTOL * EPS * cond, sig, f'L={L} (a,b)=({a},{b}) x {form} coefs {cname}')
+    sig = f'jacobi_sum_clenshaw:{lenclass(L)}' + (':int-ndarray' if kind == 'int' else '')
+    pick = lambda out, s: out   # noqa
+    for cname, c in sets_for(kind, L, seed, 3):
+        s = container(c, kind)
+        ref, cond = explicit_sum(values_of(s), modes)
+        tol = KTOL * eps_of(kind) * cond
+        what = f'L={L} (a,b)=({a},{b}) x {form} coefs {cname} as {kind}'
+        twice(R, P.jacobi_sum_clenshaw, (s, a, b, x), pick, ref, tol, sig, 'jacobi_sum_clenshaw', kind, what, s)
         if form in ('1d', '2d') and cname in ('unit0', 'dense'):
             alphas = np.zeros((L, *x.shape))
             got = R.call(P.jacobi_sum_clenshaw, s, a, b, x, alphas=alphas, sig=sig + ':exception')
-            if R.expect_close(got, ref, KTOL * EPS * cond, sig + ':alphas', f'L={L} (a,b)=({a},{b}) x {form} coefs {cname}, caller-supplied alphas'):
+            if R.expect_close(got, ref, tol, sig + ':alphas', what + ', caller-supplied alphas'):
                 R.expect_equal(alphas[0], got, sig + ':alphas', 'alphas[0] does not hold the returned sum')
     R.nontrivial()
     R.outcome(lenclass(L))
@@ -159,31 +238,24 @@ def run_jacobi(case, seed, R):
 # Qbfs / Qcon
 
 def run_q1d(case, seed, R):
-    fam, L, form, cform = case['family'], case['L'], case['x'], case['coefs_as']
+    fam, L, form, kind = case['family'], case['L'], case['x'], case['coefs_as']
     u, _ = ut_coords(form)
     usq = u * u
     valfun = Q.Qbfs if fam == 'Qbfs' else Q.Qcon
     modes = [valfun(n, u) for n in range(L)]
-    for cname, c in coef_sets(L, seed, 4, ints=True):
-        isint = cname.startswith('iunit')
-        if cform == 'list':
-            cs = c
-        else:
-            cs = np.asarray(c)     # int64 array for the int-valued unit vectors
-        tag = lenclass(L) + (':int-ndarray' if (isint and cform == 'ndarray') else '')
-        ref, cond = explicit_sum(c, modes)
-        what = f'L={L} coefs {cname} as {cform}, x {form}'
+    tag = lenclass(L) + (':int-ndarray' if kind == 'int' else '')
+    for cname, c in sets_for(kind, L, seed, 4):
+        cs = container(c, kind)
+        ref, cond = explicit_sum(values_of(cs), modes)
+        tol = KTOL * eps_of(kind) * cond
+        what = f'L={L} coefs {cname} as {kind}, x {form}'
         if fam == 'Qbfs':
-            sig = f'clenshaw_qbfs:{tag}'
-            got = R.call(Q.clenshaw_qbfs, cs, usq, sig=sig + ':exception')
-            R.expect_close(got, ref, KTOL * EPS * cond, sig, what)
-            sig = f'compute_z_zprime_Qbfs:{tag}'
-            out = R.call(Q.compute_z_zprime_Qbfs, cs, u, usq, sig=sig + ':exception')
-            R.expect_close(first_of(out, 2, R, sig, what), ref, KTOL * EPS * cond, sig, what)
+            twice(R, Q.clenshaw_qbfs, (cs, usq), lambda out, s: out, ref, tol, f'clenshaw_qbfs:{tag}', 'clenshaw_qbfs', kind, what, cs)
+            twice(R, Q.compute_z_zprime_Qbfs, (cs, u, usq), lambda out, s: first_of(out, 2, R, s, what), ref, tol,
+                  f'compute_z_zprime_Qbfs:{tag}', 'compute_z_zprime_Qbfs', kind, what, cs)
         else:
-            sig = f'compute_z_zprime_Qcon:{tag}'
-            out = R.call(Q.compute_z_zprime_Qcon, cs, u, usq, sig=sig + ':exception')
-            R.expect_close(first_of(out, 2, R, sig, what), ref, KTOL * EPS * cond, sig, what)
+            twice(R, Q.compute_z_zprime_Qcon, (cs, u, usq), lambda out, s: first_of(out, 2, R, s, what), ref, tol,
+                  f'compute_z_zprime_Qcon:{tag}', 'compute_z_zprime_Qcon', kind, what, cs)
     R.nontrivial()
     R.outcome(f'{fam}:{lenclass(L)}')
 
@@ -254,10 +326,33 @@ def q2d_reference(nms, coefs, u, t):
     return explicit_sum(coefs, [Q.Q2d(n, m, u, t) for n, m in nms])
 
 
-def eval_q2d(R, cm0, ams, bms, u, t, ref, cond, sig, what):
-    """One evaluator call judged against the explicit sum; True when right."""
-    out = R.call(Q.compute_z_zprime_Q2d, cm0, ams, bms, u, t, sig=sig + ':exception')
-    return R.expect_close(first_of(out, 3, R, sig, what), ref, KTOL * EPS * cond, sig, what)
+def eval_q2d(R, cm0, ams, bms, u, t, ref, cond, sig, what, kind='lists'):
+    """The evaluator called twice with the same coefficient objects, judged against the explicit sum; True when right."""
+    return twice(R, Q.compute_z_zprime_Q2d, (cm0, ams, bms, u, t), lambda out, s: first_of(out, 3, R, s, what), ref,
+                 KTOL * eps_of(kind) * cond, sig, 'compute_z_zprime_Q2d', kind, what, (cm0, ams, bms))
+
+
+Q2D_CONTAINERS = ['lists', 'f64', 'rows2d', 'arr2d', 'f32', 'int']
+
+
+def q2d_containers(kind, m, a, b, cm0):
+    """(cm0, ams, bms) for one azimuthal order m holding cosine coefficients a and sine coefficients b."""
+    if kind == 'lists':
+        return cm0, [[] for _ in range(m - 1)] + [list(a)], [[] for _ in range(m - 1)] + [list(b)]
+    if kind in ('f64', 'f32', 'int'):
+        dt = {'f64': np.float64, 'f32': np.float32, 'int': np.int64}[kind]
+        conv = lambda v: np.array(v, dtype=dt) if len(v) else []     # noqa -- an absent family stays an empty list
+        return conv(cm0), [[] for _ in range(m - 1)] + [conv(a)], [[] for _ in range(m - 1)] + [conv(b)]
+    # caller-owned 2-D tables, one row per azimuthal order (lower orders present with zero coefficients)
+    A = np.zeros((m, len(a)))
+    A[m - 1] = a
+    B = np.zeros((m, len(b)))
+    B[m - 1] = b
+    C = np.full((2, len(cm0)), 0.125)
+    C[0] = cm0
+    if kind == 'arr2d':
+        return C[0], A, B
+    return C[0], [A[i] for i in range(m)], [B[i] for i in range(m)]
 
 
 def run_q2d_subsets(case, seed, R):
@@ -274,6 +369,7 @@ def run_q2d_subsets(case, seed, R):
             e[k] = 1.0
             sets.append((f'unit{k}', e))
     feats = None
+    probe = Recorder()      # one per case, so that the call-hygiene variants run once per call signature
     for cname, c in sets:
         want = ref_pack(nms, c)
         feats = pack_features(*want)
@@ -285,10 +381,11 @@ def run_q2d_subsets(case, seed, R):
         cm0, ams, bms = want
         ref, cond = q2d_reference(nms, c, u, t)
         what = f'terms {nms} coefs {cname} x {form}'
-        probe = Recorder()
+        nv, ne, nc = len(probe.violations), probe.evals, probe.checks
         ok = eval_q2d(probe, cm0, ams, bms, u, t, ref, cond, 'compute_z_zprime_Q2d:combination', what)
-        R.tick(probe.evals)
-        R.checks += probe.checks
+        R.tick(probe.evals - ne)
+        R.checks += probe.checks - nc
+        ok = ok and len(probe.violations) == nv
         if not ok:
             # localise: the surface is additive over azimuthal orders, so judge every order on its own;
             # the signature is that of the smallest failing part
@@ -306,32 +403,25 @@ def run_q2d_subsets(case, seed, R):
                 pb = [[] for _ in range(m - 1)] + [b]
                 eval_q2d(R, [], pa, pb, u, t, pref, pcond, part_sig(m, len(a), len(b)), what + f' [|m|={m} part alone: a={a} b={b}]')
             if len(R.violations) == before:
-                R.violations.extend(probe.violations)
+                R.violations.extend(probe.violations[nv:])
         R.nontrivial(bool(np.any(ref != 0)))
     R.outcome(feats)
 
 
 def run_q2d_single_m(case, seed, R):
-    m, La, Lb, cm0kind, form = case['m'], case['La'], case['Lb'], case['cm0'], case['x']
+    m, La, Lb, cm0kind, form, kind = case['m'], case['La'], case['Lb'], case['cm0'], case['x'], case['coefs_as']
     u, t = ut_coords(form)
-    cm0 = None if cm0kind == 'none' else [] if cm0kind == 'empty' else [0.5, -1.25, 2.0]
-    base_terms = [] if cm0 is None or not cm0 else [((n, 0), c) for n, c in enumerate(cm0)]
-    sets = coef_sets(La + Lb, seed, 6, ints=(cm0kind == 'none'))
-    for cname, c in sets:
-        isint = cname.startswith('iunit')
-        a, b = c[:La], c[La:]
-        if isint:      # int64 arrays; only in the cell where nothing else is special
-            if La < 2 or Lb < 2:
-                continue
-            a, b = np.asarray(a), np.asarray(b)
-        sig = 'compute_z_zprime_Q2d:int-ndarray' if isint else part_sig(m, La, Lb)
-        ams = [[] for _ in range(m - 1)] + [a]
-        bms = [[] for _ in range(m - 1)] + [b]
-        terms = base_terms + [((n, m), v) for n, v in enumerate(a)] + [((n, -m), v) for n, v in enumerate(b)]
+    cm0 = None if cm0kind == 'none' else [] if cm0kind == 'empty' else ([1, 0, 2] if kind == 'int' else [0.5, -1.25, 2.0])
+    for cname, c in sets_for('int' if kind == 'int' else 'f64', La + Lb, seed, 6):
+        cm0c, ams, bms = q2d_containers(kind, m, c[:La], c[La:], cm0)
+        a, b = values_of(ams[m - 1]), values_of(bms[m - 1])
+        terms = [((n, 0), v) for n, v in enumerate(values_of(cm0c if cm0c is not None else []))]
+        terms += [((n, m), v) for n, v in enumerate(a)] + [((n, -m), v) for n, v in enumerate(b)]
         ref, cond = q2d_reference([nm for nm, _ in terms], [v for _, v in terms], u, t)
-        eval_q2d(R, cm0, ams, bms, u, t, ref, cond, sig, f'm={m} a={a} b={b} cm0={cm0} x {form} coefs {cname}')
+        sig = 'compute_z_zprime_Q2d:int-ndarray' if kind == 'int' else part_sig(m, La, Lb)
+        eval_q2d(R, cm0c, ams, bms, u, t, ref, cond, sig, f'm={m} a={a} b={b} cm0={cm0} as {kind}, x {form} coefs {cname}', kind)
     R.nontrivial()
-    R.outcome(f'cos={lenclass(La)},sin={lenclass(Lb)}')
+    R.outcome(f'cos={lenclass(La)},sin={lenclass(Lb)}:{kind}')
 
 
 # ---------------------------------------------------------------------------------------------
@@ -415,7 +505,7 @@ def run_lstsq(case, seed, R):
         r = r / rn
     sq = 'square' if ny == nx else 'nonsquare'
     fv = fill_values(fill, int(inv.sum()))
-    for cname, c in coef_sets(K, seed, 8, ints=False):
+    for cname, c in coef_sets(K, seed, 8, ints=False, dense_first=True):
         c = np.asarray(c)
         cn = float(np.linalg.norm(c))
         for resid in ((False, True) if have_resid else (False,)):
@@ -425,10 +515,20 @@ def run_lstsq(case, seed, R):
             data[inv] = fv
             sig = f'lstsq:{sq}:{mask["kind"]}:{fill}' + (':resid' if resid else '')
             tol = KTOL * EPS * (cond * cn + (cond ** 2 / float(s[0]) if resid else 0.0))
+            what = f'{name} {ny}x{nx} mask={mask} fill={fill} coefs {cname} (cond {cond:.1f}, {nvalid} valid samples)'
             for mform in (('ndarray', 'list') if cname in ('unit0', 'dense') else ('ndarray',)):
                 arg = modes.copy() if mform == 'ndarray' else [m.copy() for m in modes]
                 got = R.call(P.lstsq, arg, data.copy(), sig=sig + ':exception')
-                R.expect_close(got, c, tol, sig, f'{name} {ny}x{nx} mask={mask} fill={fill} coefs {cname} modes as {mform} (cond {cond:.1f}, {nvalid} valid samples)')
+                R.expect_close(got, c, tol, sig, what + f' modes as {mform}')
+            if cname == 'dense' and resid == have_resid and mask['kind'] != 'sample':
+                # memory layouts of the data and of the modes (same values): the fit is a function of the values only
+                for lay in LAYOUTS[1:]:
+                    for which in ('data', 'modes', 'mode-list'):
+                        d = layout(data, lay) if which == 'data' else data.copy()
+                        mm = layout(modes, lay) if which == 'modes' else [layout(m, lay) for m in modes] if which == 'mode-list' else modes.copy()
+                        lsig = f'lstsq:layout:{which}={lay}'
+                        got = R.call(P.lstsq, mm, d, sig=lsig + ':exception')
+                        R.expect_close(got, c, tol, lsig, what + f' {which} in layout {lay}')
     R.nontrivial()
     R.outcome(f'fit:{mask["kind"]}:{fill}' + (':resid' if have_resid else ''))
 
@@ -439,16 +539,17 @@ def plan(tier, seed):
     quick = tier == 'quick'
     LMAX = 8
     sm_shapes = [[1, 1], [3, 4], [4, 3], [1, 5], [5, 1], [4, 4]] + ([] if quick else [[2, 7], [7, 2], [6, 6]])
-    sm_cases = [{'K': K, 'shape': s, 'modes_as': f, 'dtype': dt}
-                for K in range(1, LMAX + 1) for s in sm_shapes for f in ('ndarray', 'list') for dt in ('float64', 'float32')]
+    sm_cases = [{'K': K, 'shape': s, 'modes_as': f, 'dtype': dt, 'layout': lay}
+                for K in range(1, LMAX + 1) for s in sm_shapes for f in ('ndarray', 'list') for dt in ('float64', 'float32')
+                for lay in LAYOUTS if lay == 'C' or (s[0] > 1 and s[0] != s[1] and dt == 'float64')]
 
     abs_ = [[0, 0], [0, 4], [-0.5, 0.5], [-0.5, -0.5], [1, 2], [2.5, 0.5]] + ([] if quick else [[0.5, -0.5], [3, 0], [0, 1.5], [4, 4]])
     jac_cases = [{'L': L, 'ab': ab, 'x': f, 'coefs_as': cf}
-                 for L in range(1, LMAX + 1) for ab in abs_ for f in XFORMS for cf in ('list', 'ndarray')]
+                 for L in range(1, LMAX + 1) for ab in abs_ for f in XFORMS for cf in CONTAINERS]
 
     LQ = LMAX if quick else 12
     q1_cases = [{'family': fam, 'L': L, 'x': f, 'coefs_as': cf}
-                for L in range(1, LQ + 1) for fam in ('Qbfs', 'Qcon') for f in XFORMS for cf in ('list', 'ndarray')]
+                for L in range(1, LQ + 1) for fam in ('Qbfs', 'Qcon') for f in XFORMS for cf in CONTAINERS]
 
     subsets = []
     idx = 0
@@ -466,9 +567,11 @@ def plan(tier, seed):
 
     MM = 5 if quick else 7
     LS = 5 if quick else 8
-    single = [{'m': m, 'La': La, 'Lb': Lb, 'cm0': ck, 'x': f}
+    single = [{'m': m, 'La': La, 'Lb': Lb, 'cm0': ck, 'x': f, 'coefs_as': kind}
               for La in range(0, LS + 1) for Lb in range(0, LS + 1) if La + Lb > 0
-              for m in range(1, MM + 1) for ck in ('none', 'empty', 'len3') for f in (['pyfloat', '2d'] if quick else XFORMS)]
+              for m in range(1, MM + 1) for kind in Q2D_CONTAINERS for ck in (('none', 'empty', 'len3') if kind == 'lists' else ('len3',))
+              if kind not in ('rows2d', 'arr2d') or (La > 0 and Lb > 0)
+              for f in (['pyfloat', '2d'] if quick else XFORMS)]
 
     grids = [[5, 5], [5, 6], [6, 5], [7, 7], [9, 7]] + ([] if quick else [[7, 9], [6, 9], [8, 8], [9, 9]])
     fills = ['nan', '+inf', '-inf', 'mixed']
@@ -487,26 +590,28 @@ def plan(tier, seed):
     return [
         ScopeUnit('sum_of_2d_modes', sm_cases, run_sum_modes,
                   f'every mode count K in 1..{LMAX} x shapes {sm_shapes} x modes given as 3-D array / list of 2-D arrays x float64/float32; '
-                  'integer-labelled modes and one seeded dense stack; weights = every unit vector (float and int valued) + one seeded dense, as list and as array; '
-                  'oracle: explicit loop over modes', reset=reset_all),
+                  f'x memory layout of the modes {LAYOUTS} (C / Fortran copy / transposed view of transposed data / strided slice; non-C layouts for float64 non-square 2-D shapes); '
+                  f'one seeded dense stack (all weight containers) and integer-labelled modes (list / float64 weights); weights = every unit vector (float and int valued) + one seeded dense, held as {CONTAINERS} '
+                  '(list / float64 array / row of a 2-D float64 table / float32 array / int64 array); every evaluation is made TWICE with the same coefficient objects (second result = first = reference; containers must be left unchanged); oracle: explicit loop over modes', reset=reset_all),
         ScopeUnit('jacobi_sum_clenshaw', jac_cases, run_jacobi,
-                  f'every length L in 1..{LMAX} x (alpha,beta) in {abs_} x coordinate form {XFORMS} x coefficients as list / array; '
-                  'every unit vector (float and int valued) + one seeded dense; with and without caller-supplied alphas; oracle sum_n s_n jacobi(n,a,b,x)', reset=reset_all),
+                  f'every length L in 1..{LMAX} x (alpha,beta) in {abs_} x coordinate form {XFORMS} x coefficient container {CONTAINERS}; '
+                  'every unit vector (float and int valued) + one seeded dense; every evaluation is made TWICE with the same coefficient objects (second result = first = reference; containers must be left unchanged); with and without caller-supplied alphas; oracle sum_n s_n jacobi(n,a,b,x)', reset=reset_all),
         ScopeUnit('qbfs_qcon', q1_cases, run_q1d,
-                  f'clenshaw_qbfs, compute_z_zprime_Qbfs, compute_z_zprime_Qcon: every length L in 1..{LQ} x coordinate form {XFORMS} x coefficients as list / array '
-                  '(int-valued unit vectors included, as int list and int64 array); every unit vector + one seeded dense; oracle sum_n c_n Qbfs(n,u) / Qcon(n,u)', reset=reset_all),
+                  f'clenshaw_qbfs, compute_z_zprime_Qbfs, compute_z_zprime_Qcon: every length L in 1..{LQ} x coordinate form {XFORMS} x coefficient container {CONTAINERS} '
+                  '(int-valued unit vectors included, as int list and int64 array); every unit vector + one seeded dense; every evaluation is made TWICE with the same coefficient objects (second result = first = reference; containers must be left unchanged); oracle sum_n c_n Qbfs(n,u) / Qcon(n,u)', reset=reset_all),
         ScopeUnit('q2d_subsets', subsets, run_q2d_subsets,
                   f'EVERY non-empty subset of the pool {POOL} of (n,m) terms (255 sparsity patterns: m=0-only, cosine-only, sine-only, unequal radial lengths per m, gaps in m), '
                   'in ascending and descending term order, x coordinate forms; per pattern one seeded dense vector and every unit vector inside the pattern; '
-                  'Q2d_nm_c_to_a_b against an independent re-packer, compute_z_zprime_Q2d (fed the documented packing) against sum c Q2d(n,m,u,t); '
+                  'Q2d_nm_c_to_a_b against an independent re-packer, compute_z_zprime_Q2d (fed the documented packing, evaluated twice) against sum c Q2d(n,m,u,t); '
                   'non-trivial when the reference surface is not identically zero', reset=reset_all),
         ScopeUnit('q2d_single_m', single, run_q2d_single_m,
                   f'compute_z_zprime_Q2d called directly: azimuthal order m in 1..{MM} x cosine list length 0..{LS} x sine list length 0..{LS} (not both empty) x '
-                  'm=0 part None / [] / 3 terms x coordinate forms; every unit vector over the concatenated (a,b) + one seeded dense', reset=reset_all),
+                  f'm=0 part None / [] / 3 terms x coordinate forms x coefficient containers {Q2D_CONTAINERS} (lists of lists, lists of float64 / float32 / int64 arrays, rows of one 2-D float64 table, the 2-D table itself); '
+                  'every unit vector over the concatenated (a,b) + one seeded dense; every evaluation is made TWICE with the same coefficient objects (second result = first = reference; containers must be left unchanged)', reset=reset_all),
         ScopeUnit('lstsq', ls_cases, run_lstsq,
                   f'bases Legendre(x)Legendre(y) 6 terms, XY monomials 6 terms, Zernike Noll 1..10 on grids {grids}; invalid-sample masks: none, EVERY single sample, '
                   'every single row, every single column, circular aperture, ragged edge, three-column band; invalid samples filled with NaN / +inf / -inf / a mixture; coefficient unit vectors + one '
                   'seeded dense; data = B c and B c + r (r orthogonal to the basis on exactly the valid samples, so any other sample selection changes the answer); '
-                  'modes as array and as list; masks leaving the basis rank-deficient on the valid samples (numpy matrix_rank) are counted under outcome '
+                  f'modes as array and as list; for the dense vector and every mask other than the single-sample ones additionally data / mode stack / mode list in memory layouts {LAYOUTS[1:]}; masks leaving the basis rank-deficient on the valid samples (numpy matrix_rank) are counted under outcome '
                   '"rank-deficient-skipped" and not judged', reset=reset_all),
     ]
